@@ -304,6 +304,8 @@ VARIANTS += [
     V("twin-split-cuts-frozenset", ["C07", "C03"], H, "        nodes = set(nodes)\n        if len(nodes) == 0:\n            return (self,)\n        nodes = tuple(sorted(nodes | set(self.limits)))\n", "        if len(nodes) == 0:\n            return (self,)\n        nodes = sorted(frozenset(nodes) | frozenset(self.limits))\n", None, None, "de-duplicated once, with frozenset", twin=True),
     V("add-interval-containment", ["C08"], C, "        if self.knotvector.limits != other.knotvector.limits:\n            raise ValueError\n        if self.weights is None and other.weights is None:\n            vecta, vectb = tuple(self.knotvector), tuple(other.knotvector)\n            matra, matrb = heavy.MathOperations.add_spline_curve(vecta, vectb)", "        if not self.knotvector.valid(other.knotvector.limits):\n            raise ValueError\n        if self.weights is None and other.weights is None:\n            vecta, vectb = tuple(self.knotvector), tuple(other.knotvector)\n            matra, matrb = heavy.MathOperations.add_spline_curve(vecta, vectb)", "SAME-INTERVAL", "__add__", "interval guard is a containment"),
     V("twin-add-interval-ends", ["C08"], C, "        if self.knotvector.limits != other.knotvector.limits:\n            raise ValueError\n        if self.weights is None and other.weights is None:\n            vecta, vectb = tuple(self.knotvector), tuple(other.knotvector)\n            matra, matrb = heavy.MathOperations.add_spline_curve(vecta, vectb)", "        if tuple(self.knotvector.limits) != tuple(other.knotvector.limits):\n            raise ValueError\n        if self.weights is None and other.weights is None:\n            vecta, vectb = tuple(self.knotvector), tuple(other.knotvector)\n            matra, matrb = heavy.MathOperations.add_spline_curve(vecta, vectb)", None, None, "limits compared as tuples", twin=True),
+    V("error-short-form-constrained", ["C05", "C11"], H, "        E = (FF - 2 * np.dot(T.T, GF) + np.dot(T.T, np.dot(GG, T))) / 2\n", "        E = (FF - np.dot(T.T, GF)) / 2\n", "ERROR-QUADRATIC", "func2func", "short error formula used with the constrained T"),
+    V("twin-error-residual-form", ["C05", "C11"], H, "        E = (FF - 2 * np.dot(T.T, GF) + np.dot(T.T, np.dot(GG, T))) / 2\n", "        residual = GF - np.dot(GG, T)\n        E = (FF - np.dot(T.T, GF) - np.dot(T.T, residual)) / 2\n", None, None, "quadratic form written with the residual of the normal equations", twin=True),
     V("insert-divide-by-umax", ["C04"], H, "        one = knotvector[-1] - knotvector[0]\n", "        one = knotvector[-1]\n", "D", "one_knot_insert_once", "unit made from the last knot alone (0 for an interval ending at 0)", near=908),
     V("increase-in-place-kv", ["C06"], C, "        nodes = self.knotvector.knots\n        newnodes = times * nodes\n        newvector = self.knotvector + newnodes\n        oldvector = tuple(self.knotvector)\n        matrix = heavy.Operations.degree_increase(oldvector, times)\n", "        oldvector = tuple(self.knotvector)\n        matrix = heavy.Operations.degree_increase(oldvector, times)\n        newvector = KnotVector(self.knotvector)\n        newvector.degree += times\n", "SHARED-KV", "degree_increase", "the stored KnotVector object is elevated in place"),
 ]
